@@ -340,5 +340,5 @@ func c09(r *mon.Run) {
 				t.Nontrivial("large:" + expr + ref.Canon(doc))
 			}
 		}}
-	r.Exec(exh, ctx, large)
+	r.Exec(exh, ctx, large, sizedWorkload(r, "sized-arrays", false))
 }
